@@ -41,6 +41,7 @@ type Scenario struct {
 	Seg       int   `json:"seg"`       // segment depth limit of the subscriber (0: unsegmented)
 	LateReg   bool  `json:"latereg"`   // listeners may be registered after Close has started
 	Readers   bool  `json:"readers"`   // listeners are read by fast and slow readers during the run (otherwise: stalled, read at the end)
+	Idle      int   `json:"idle"`      // > 0: the idle handler TTL is 2 ms and the idle handler cleaner runs this many times at random points
 	Seed      int64 `json:"seed"`
 	Patience  int   `json:"patience,omitempty"` // watchdog multiplier (confirmation run of a hang)
 }
@@ -114,6 +115,48 @@ func (r *run) cnum(p int, c cid.Cid) int {
 
 var syncFrames = []string{"dagsync.(*handler).asyncSyncAdChain", "dagsync.(*handler).handle", "dagsync.(*Subscriber).SyncAdChain", "dagsync.(*Subscriber).watch.func"}
 
+const idleTTL = 2 * time.Millisecond
+
+// parkedWork returns the parked goroutines except the idle handler cleaner, which parks at every tick of its timer for as
+// long as the subscriber lives and is released by the environment action "clean".
+func (r *run) parkedWork() []int64 {
+	ids := r.s.ParkedIDs()
+	if c := r.s.ParkedAt("i.tick"); c != 0 {
+		out := ids[:0]
+		for _, g := range ids {
+			if g != c {
+				out = append(out, g)
+			}
+		}
+		return out
+	}
+	return ids
+}
+
+// cleanPasses lets the idle handler cleaner make two passes.  The time of a tick is taken when the timer fires, not when the
+// parked cleaner is released, so the first pass may judge the handlers against an old tick; the tick of the second pass is
+// later than the end of the first.
+func (r *run) cleanPasses() string {
+	s := r.s
+	for pass := 0; pass < 2; pass++ {
+		deadline := time.Now().Add(3 * s.Watchdog)
+		var c int64
+		for c = s.ParkedAt("i.tick"); c == 0; c = s.ParkedAt("i.tick") {
+			if time.Now().After(deadline) {
+				return "the idle handler cleaner did not tick"
+			}
+			time.Sleep(200 * time.Microsecond)
+			s.Settle()
+		}
+		time.Sleep(idleTTL) // anything released before this point has expired at the next tick
+		s.Release(c)
+		if !s.Settle() && !s.Settle() && !s.Settle() {
+			return "the idle handler cleaner did not finish its pass: " + s.Hang
+		}
+	}
+	return ""
+}
+
 // Execute runs one scenario and returns the trace plus a divergence (hang etc.) if the run itself failed.
 func Execute(sc Scenario, pubs []*chain.Pub) (log []gate.Event, key, detail string) {
 	r := &run{sc: sc, s: gate.New(sc.Seed), pubs: pubs, dst: lsys.NewStore(), announced: make([]int, len(pubs)),
@@ -128,6 +171,11 @@ func Execute(sc Scenario, pubs []*chain.Pub) (log []gate.Event, key, detail stri
 			return
 		}
 		p := r.pnum(pid)
+		if point == "i.removed" {
+			// inside the cleaner's pass, which holds the handlers' mutex: recorded, not parked (the cleaner is the one goroutine running)
+			s.RecordG(gate.Event{Ev: point, P: p})
+			return
+		}
 		if point == "g.failed" {
 			r.fmu.Lock()
 			r.failed[[2]int{p, r.cnum(p, c)}] = true
@@ -180,6 +228,9 @@ func Execute(sc Scenario, pubs []*chain.Pub) (log []gate.Event, key, detail stri
 	if sc.Seg > 0 {
 		opts = append(opts, dagsync.SegmentDepthLimit(int64(sc.Seg)))
 	}
+	if sc.Idle > 0 {
+		opts = append(opts, dagsync.IdleHandlerTTL(idleTTL))
+	}
 	s.Record(gate.Event{Ev: "reset", N: sc.Sem, P: sc.Pubs, C: sc.Ads, G: sc.Seg})
 	// NewSubscriber starts the watcher, the distributor and the cleaner: they park at their first hooks.
 	var err error
@@ -206,7 +257,7 @@ func Execute(sc Scenario, pubs []*chain.Pub) (log []gate.Event, key, detail stri
 	for i := range expLeft {
 		expLeft[i] = sc.Explicit
 	}
-	regLeft, cancelLeft, closeLeft := sc.Listeners, sc.Cancels, sc.Closers
+	regLeft, cancelLeft, closeLeft, cleanLeft := sc.Listeners, sc.Cancels, sc.Closers, sc.Idle
 	var xcancels []context.CancelFunc // contexts of explicit syncs not cancelled yet
 	xnum := 0
 	available := func() []envAction {
@@ -276,14 +327,20 @@ func Execute(sc Scenario, pubs []*chain.Pub) (log []gate.Event, key, detail stri
 		if len(xcancels) > 0 {
 			todo = append(todo, envAction{"xcancel", 0, 0})
 		}
+		if cleanLeft > 0 {
+			todo = append(todo, envAction{"clean", 0, 0})
+		}
 		return todo
 	}
 	ctx := context.Background()
 	stragglerWaits := 0
 	lastProgress := time.Now()
 	for step := 0; step < 4000+80*sc.Ads*sc.Pubs; step++ {
-		parked := s.ParkedIDs()
+		parked := r.parkedWork()
 		env := available()
+		if len(parked) == 0 && len(env) == 1 && env[0].kind == "clean" {
+			env = nil // nothing but the cleaner is left: the last passes follow the run
+		}
 		if len(parked) != 0 || len(env) != 0 {
 			lastProgress = time.Now()
 		}
@@ -387,6 +444,11 @@ func Execute(sc Scenario, pubs []*chain.Pub) (log []gate.Event, key, detail stri
 					l.cancelling = false
 					s.RecordG(gate.Event{Ev: "env.cancel.ret", N: a.k})
 				})
+			case "clean":
+				cleanLeft--
+				if why := r.cleanPasses(); why != "" {
+					key, detail = "infra", why
+				}
 			case "xcancel":
 				i := s.Rng.Intn(len(xcancels))
 				xcancels[i]()
@@ -406,12 +468,15 @@ func Execute(sc Scenario, pubs []*chain.Pub) (log []gate.Event, key, detail stri
 				}
 			}
 		}
+		if key != "" {
+			break
+		}
 		if !s.Settle() && !s.Settle() && !s.Settle() { // three watchdog periods before a goroutine on its way counts as stuck
 			key, detail = "hang", fmt.Sprintf("after step %d: a goroutine neither reached a hook, nor returned, nor blocked in a library primitive within %v:\n%s", step, s.Watchdog, s.Hang)
 			break
 		}
 	}
-	if key == "" && len(s.ParkedIDs()) != 0 {
+	if key == "" && len(r.parkedWork()) != 0 {
 		key, detail = "infra", "step budget exhausted with goroutines still parked"
 	}
 	if stragglerWaits > 0 {
@@ -426,6 +491,20 @@ func Execute(sc Scenario, pubs []*chain.Pub) (log []gate.Event, key, detail stri
 			}
 			s.Record(gate.Event{Ev: "final.latest", P: p + 1, C: l, N: r.announced[p]})
 		}
+		// the handlers that exist now: everything is at rest, so with the cleaner running every handler has been idle
+		// for longer than the TTL after the last passes
+		if sc.Idle > 0 {
+			if why := r.cleanPasses(); why != "" {
+				key, detail = "infra", why
+			}
+		}
+		var have []int
+		for p := range pubs {
+			if r.sub.RemoveHandler(pubs[p].ID) {
+				have = append(have, p+1)
+			}
+		}
+		s.Record(gate.Event{Ev: "final.handlers", Q: have})
 	}
 	// teardown without gating: Close, then drain the listeners until their channels close
 	passthrough = true
@@ -586,7 +665,7 @@ func Run(args []string) *rep.Report {
 	procs := fs.Int("procs", runtime.NumCPU(), "worker processes")
 	count := fs.Int("count", 100, "scenarios in total")
 	seed := fs.Int64("seed", 1, "base seed")
-	family := fs.String("family", "announce", "announce | mixed | scoped | listeners | close | faults | stall")
+	family := fs.String("family", "announce", "announce | mixed | scoped | listeners | close | faults | stall | idle | idlex")
 	stallAds := fs.Int("stall-ads", 90, "advertisements of the long chain of family stall")
 	fs.Parse(args)
 	if *shard == "" {
@@ -643,6 +722,16 @@ func Run(args []string) *rep.Report {
 		case "faults":
 			sc.Faults = 1 + i%3
 			sc.Listeners = i % 2
+		case "idle", "idlex":
+			// the idle handler cleaner runs at random points: of announce-only runs (idle), and of runs with explicit syncs
+			// of another publisher (idlex; overlapping syncs of one publisher are the known findings of family mixed)
+			sc.Idle = 2 + i%3
+			if *family == "idlex" {
+				sc.Pubs = 2 + i%2
+				sc.Explicit, sc.Separate = 1+(i/2)%2, true
+				sc.XCancel = i%4 == 3
+			}
+			sc.Faults = (i / 3) % 2
 		case "stall":
 			sc.Pubs, sc.Ads, sc.Listeners = 1, len(long.Chain.Cids)-1, 1
 		case "listeners":
